@@ -124,7 +124,9 @@ def build_harness(variant="asan", log=None):
         shutil.rmtree(d, ignore_errors=True)
         raise RuntimeError("harness build failed:\n" + msg)
     link = ["gcc"] + VARIANTS[variant] + [j[1] for j in jobs] + [ZSTD_LIB, "-lz", "-lm", "-lpthread",
-            "-Wl,--wrap=malloc,--wrap=calloc,--wrap=realloc", "-o", exe]
+            "-Wl,--wrap=malloc,--wrap=calloc,--wrap=realloc,--wrap=strdup",
+            "-Wl,--wrap=carquet_arena_alloc,--wrap=carquet_arena_calloc,--wrap=carquet_arena_alloc_aligned",
+            "-Wl,--wrap=carquet_arena_strdup,--wrap=carquet_arena_strndup,--wrap=carquet_arena_memdup", "-o", exe]
     r = sh(link)
     if r.returncode != 0:
         shutil.rmtree(d, ignore_errors=True)
